@@ -6,13 +6,14 @@ import numpy as np
 from core import cz, cn, cb, cq, clist, copt, VERIF
 sys.path.insert(0, os.path.join(VERIF, "translator"))
 import tr_msm
+import tr_spectrum
 
 PID = "C16"
 PROPS_FILE = "Props/C16.v"
-MODEL_TARGETS = ["Model/Msm.vo", "Gen/MsmCfgGen.vo"]
-GEN_FILES = ["Gen/MsmCfgGen.v"]
+MODEL_TARGETS = ["Model/Msm.vo", "Gen/MsmCfgGen.vo", "Gen/MsmSpecGen.vo", "Gen/MsmAuxGen.vo"]
+GEN_FILES = ["Gen/MsmCfgGen.v", "Gen/MsmSpecGen.v", "Gen/MsmAuxGen.v"]
 CASE_HEADER = ("From Coq Require Import List ZArith QArith.\n"
-               "From EV Require Import MsmBase MsmCfgGen Msm.\nFrom EV Require Trim Builders.\n"
+               "From EV Require Import MsmBase MsmCfgGen Msm MsmSpecBase MsmSpecGen.\nFrom EV Require Trim Builders.\n"
                "Import ListNotations.\n")
 SHARD = 30
 RULE = ("four streams. fit: random sets of 1..4 state trajectories (lengths 1..14, 1..5 states, small ids so that "
@@ -28,10 +29,16 @@ RULE = ("four streams. fit: random sets of 1..4 state trajectories (lengths 1..1
         "dyadic matrices (compared exactly) and general ones (1e-9), with and without observable, n_steps 0..7, "
         "wrong-length start vectors. imp: implied_timescales with a recording builder: the matrix handed to the "
         "eigen-solver is compared with the Coq model of calc_imp_times' pipeline, the times with -lag/log(lambda). "
+        "Round 3: eig / ens / imp cases are also evaluated on the definitions regenerated from the source "
+        "(gen_eigenspectrum incl. its solver choice, gen_ensemble[_obs], the calc_imp_times arguments of "
+        "gen_implied_timescales); the directory written by MSM.save is compared with the translated file table. "
         "non-trivial := fit: >= 2 states kept and >= 3 transitions counted; eig: >= 3 states; ens: >= 2 steps and "
         ">= 2 states; imp: >= 1 finite timescale")
 TRUSTED = ["translator/tr_msm.py (attribute stores of MSM.__init__, argument binding of the calls in fit and "
            "calc_imp_times against the callees' signatures, config dict, MSM(**config))",
+           "translator/tr_spectrum.py + the NumPy vocabulary of Base/MsmSpecBase.v, Base/MsmAuxBase.v (eigenspectrum's "
+           "guard / solver choice / post-processing, calc_imp_times' eigenspectrum call and formula, implied_timescales' "
+           "loop, synthetic_ensemble, the save/load attribute-file table: regenerated and proved equal to the model)",
            "eigen-solver: LAPACK geev behind scipy.linalg.eig (its raw output is an input of the model eig_post; the "
            "oracle checks the eigenpair residuals at 1e-9)",
            "file formats: Matrix-Market mmwrite/mmread (precision 20), np.savetxt/loadtxt, csv, pickle: the round trip "
@@ -54,7 +61,9 @@ BUILDERS = ["normalize", "transpose", "mle"]
 
 
 def translate(repo):
-    return tr_msm.translate(repo)
+    out = dict(tr_msm.translate(repo))
+    out.update(tr_spectrum.translate(repo))
+    return out
 
 
 # ----------------------------------------------------------------------------- brute-force helpers (generator side)
@@ -355,6 +364,13 @@ def _roundtrip(m):
     try:
         p = os.path.join(d, "model")
         m.save(p)
+        try:
+            import json
+            out["files"] = sorted(os.listdir(p))
+            with open(os.path.join(p, "manifest.json")) as f:
+                out["manifest"] = sorted(json.load(f).items())
+        except Exception as ex:
+            out["manifest"] = "err:" + type(ex).__name__
         m2 = MSM.load(p)
         out["eq_op"] = bool(m == m2) and bool(m2 == m)
         out["config"] = bool(m2.lag_time == m.lag_time and type(m2.lag_time) is type(m.lag_time)
@@ -554,6 +570,19 @@ def _close(a, b, tol=TOL):
     return abs(a - b) <= tol * max(1, abs(b))
 
 
+@functools.lru_cache(maxsize=1)
+def _io_table():
+    """(key, file name) pairs and manifest name as translated from the current source of MSM.save"""
+    try:
+        import core
+        from pyast import parse_file, find_func
+        tree, _ = parse_file(core.REPO, tr_spectrum.REL_MSM)
+        names, _rows, man = tr_spectrum.tr_save(find_func(tree, "save", tr_spectrum.REL_MSM, cls="MSM"))
+        return [(k, v) for k, v in names], man
+    except Exception:
+        return None, None           # a rejected source is reported by the translator step
+
+
 def _oracle_fit(c, r):
     out = []
     est, pipe = r["est"], r["pipe"]
@@ -587,6 +616,13 @@ def _oracle_fit(c, r):
                 if rt[f] is False:
                     out.append(("roundtrip-" + f, "MSM.load(MSM.save(m)) differs from m in: %s %s" % (
                         f, rt.get("config_detail") if f == "config" else "")))
+            # the directory on disk is the attribute <-> file table that the translator read off MSM.save
+            # (Gen/MsmAuxGen.v gen_default_fnames / gen_manifest_save, proved equal to Model/MsmIO.v)
+            names, man = _io_table()
+            if names is not None and "manifest" in rt:
+                if [list(x) for x in rt["manifest"]] != [list(x) for x in sorted(names)] or rt.get("files") != sorted([v for _, v in names] + [man]):
+                    out.append(("roundtrip-files", "manifest %s / files %s on disk, MSM.save's table says %s + %s" % (
+                        rt["manifest"], rt.get("files"), names, man)))
             if rt["force"] is not True:
                 out.append(("roundtrip-force", "save(force=True) over an existing model: %s" % rt["force"]))
     return out
@@ -792,13 +828,28 @@ def _coq_eig(c, r):
         exp = "(@None (list Q * list (list Q)))"
     else:
         exp = "(Some (%s, %s))" % (_cvec(o["vals"]), _cmat(o["vecs"]))
-    return "qpair_close %s %s" % (_eig_model(c, r), exp)
+    # the same comparison for the function regenerated from the source (guard, solver choice on the transposed
+    # input, post-processing), with LAPACK's raw output as the solver's answer
+    raw = "(%s, %s)" % (clist(r["raw_vals"], _ccplx, "cplx"), clist(r["raw_vecs"], lambda v: clist(v, _ccplx, "cplx"), "(list cplx)"))
+    T = "(%s, %s)" % (cb(c["sparse"]), _cmat(r["T"]))
+    gen = "(gen_eigenspectrum lmx_ops (fun _ => %s) %s %s eig_default_left eig_default_maxiter eig_default_tol)" % (
+        raw, T, copt(c["n_eigs"], cz, "Z"))
+    dense = "(is_call_eig (gen_solver lmx_ops %s 2%%Z eig_default_left eig_default_maxiter eig_default_tol))" % T
+    return "(qpair_close %s %s && qpair_close %s %s && %s)%%bool" % (_eig_model(c, r), exp, gen, exp, dense)
 
 
 def _ens_model(c):
     if c["obs"] is None:
         return "(ensemble %s %s %s)" % (_cmat(c["T"]), _cvec(c["p0"]), cz(c["n_steps"]))
     return "(ensemble_obs %s %s %s %s)" % (_cmat(c["T"]), _cvec(c["p0"]), cz(c["n_steps"]), _cvec(c["obs"]))
+
+
+def _ens_gen(c):
+    """synthetic_ensemble as regenerated from the source (Gen/MsmSpecGen.v)"""
+    if c["obs"] is None:
+        return "(gen_ensemble %s %s %s %s)" % (cb(c["sparse"]), _cmat(c["T"]), _cvec(c["p0"]), cz(c["n_steps"]))
+    return "(gen_ensemble_obs %s %s %s %s %s)" % (cb(c["sparse"]), _cmat(c["T"]), _cvec(c["p0"]), cz(c["n_steps"]),
+                                                 _cvec(c["obs"]))
 
 
 def _coq_ens(c, r):
@@ -809,7 +860,7 @@ def _coq_ens(c, r):
         exp = "(@None (list Q * list Q))" if "err" in r else "(Some (%s, %s))" % (_cvec(r["p"]), _cvec(r["obs"]))
         cmp_ = "ens_obs_eqb" if c["dyadic"] else \
             "(fun a b => match a, b with Some (x, y), Some (u, v) => Builders.vec_close tol9 x u && Builders.vec_close tol9 y v | None, None => true | _, _ => false end)"
-    return "%s %s %s" % (cmp_, _ens_model(c), exp)
+    return "(%s %s %s && %s %s %s)%%bool" % (cmp_, _ens_model(c), exp, cmp_, _ens_gen(c), exp)
 
 
 def _imp_terms(c, r):
@@ -827,6 +878,14 @@ def _coq_imp(c, r):
     if not c["trim"]:    # (trimming may leave fewer states than timescales asked for)
         parts.append("(Z.eqb (imp_n_times (imp_n_states %s) %s) %s)" % (
             _ctrjs(c["trjs"]), copt(c["n_times"], cz, "Z"), cz(r["shape"][1])))
+    # implied_timescales as regenerated from the source: the arguments of each calc_imp_times call
+    # (lag, n_states, n_times, sliding_window, trim), in lag-time order
+    a = _ctrjs(c["trjs"])
+    rec = "(fun (a : assigns) t ns nt (m : unit) sl tr => [t; ns; %sb2z sl; b2z tr]%%Z)" % ("" if c["trim"] else "nt; ")
+    exp = clist([[lag, ns] + ([] if c["trim"] else [r["shape"][1]]) + [int(c["sliding"]), int(c["trim"])] for lag in c["lags"]],
+                lambda row: clist(row, cz, "Z"), "(list Z)")
+    parts.append("(zll_eqb (gen_implied_timescales (fun a => (imp_n_states a - 1)%%Z) %s %s %s tt %s %s %s) %s)" % (
+        rec, a, clist(c["lags"], cz, "Z"), copt(c["n_times"], cz, "Z"), cb(c["sliding"]), cb(c["trim"]), exp))
     return "(" + " && ".join(parts) + ")%bool"
 
 
